@@ -176,7 +176,7 @@ func c03World(t *testing.T, p c03Params) rt.Result {
 				break
 			}
 		}
-		after := rc.Msgs()[base:]
+		after := sansEcho(rc.Msgs()[base:])
 		eof, _ := rc.EOF()
 		if p.NotifAt >= 0 && p.NotifAt < len(sent) {
 			wn := &wire.Notif{Code: notif.Code, Sub: notif.Subcode, Data: notif.Data}
